@@ -505,6 +505,13 @@ func runJob(bin string, job Job, scns []string, tier string, budgetS float64, se
 			defer mu.Unlock()
 			b, rerr := os.ReadFile(out)
 			if rerr != nil {
+				// the worker died. When the code under test (which runs inside the worker) paniced in one of its own
+				// goroutines or hit a fatal runtime error, that is what the check observed: a crash of the process.
+				if v, ok := crashViolation(u.scn, string(cout)); ok {
+					reps = append(reps, &workerReport{Scenario: u.scn, Complete: false, Violations: []violation{v},
+						Outcomes: map[string]int64{"violation: " + v.Sig: 1}, ByClass: map[string]int64{}, EndReasons: map[string]int64{}})
+					return
+				}
 				errs = append(errs, fmt.Sprintf("worker %s shard %d/%d produced no report: %v\n%s", u.scn, u.shard, u.n, cerr, tail(string(cout), 4000)))
 				return
 			}
@@ -525,6 +532,46 @@ func runJob(bin string, job Job, scns []string, tier string, budgetS float64, se
 	}
 	wg.Wait()
 	return reps, errs
+}
+
+// crashViolation recognises a panic / fatal error of the repository's code in the output of a dead worker.
+func crashViolation(scn, out string) (violation, bool) {
+	i := strings.Index("\n"+out, "\npanic: ")
+	kind := "panic"
+	if i < 0 {
+		i = strings.Index("\n"+out, "fatal error: ")
+		kind = "fatal error"
+	}
+	if i < 0 {
+		return violation{}, false
+	}
+	rest := ("\n" + out)[i:]
+	msg := strings.TrimSpace(strings.SplitN(strings.TrimPrefix(strings.TrimPrefix(rest, "\n"), "panic: "), "\n", 2)[0])
+	msg = strings.TrimPrefix(msg, "fatal error: ")
+	if len(msg) > 80 {
+		msg = msg[:80]
+	}
+	where := ""
+	lines := strings.Split(rest, "\n")
+	for li, line := range lines {
+		t := strings.TrimSpace(line)
+		if strings.HasPrefix(t, "github.com/samaritan-proxy/samaritan/") && !strings.Contains(t, "/verifrt/") {
+			if li+1 < len(lines) && strings.Contains(lines[li+1], "zz_verif") {
+				continue
+			}
+			fn := strings.TrimPrefix(t, "github.com/samaritan-proxy/samaritan/")
+			if j := strings.LastIndex(fn, "("); j > 0 {
+				fn = fn[:j]
+			}
+			where = " @ " + fn
+			break
+		}
+	}
+	if where == "" {
+		return violation{}, false // not in the repository's code: an error of the machinery
+	}
+	return violation{Scenario: scn, Sig: "process-died / " + kind + ": " + msg + where,
+		Detail: "the process running the code under test died:\n" + tail(rest, 3000), Replayed: true, Input: json.RawMessage(`{"crash":true}`)}, true
 }
 
 // parseRaceLogs turns the race detector's reports into violations (one per distinct pair of functions).
